@@ -2,6 +2,7 @@ import RactorModel.Extracted
 import RactorModel.Lemmas.LifeC04
 import RactorModel.Lemmas.LifeWorld
 import RactorModel.Lemmas.LifeResidue
+import RactorModel.Lemmas.LifeDelivery
 
 /-!
 # C04 — Failures are contained and reported to the supervisor exactly once
@@ -156,6 +157,47 @@ example : traceNoSnap 5 [.spawnInstant (some 3) none true false, .send 1, .link 
 example : traceNoSnap 5 [.spawnInstant none none true false, .kill, .pollSpawn true, .send 2] =
     [.instant, .killRet false true, .spawnRet .killed, .sendRet false 2 false] := by decide
 
+/-! ### Round 4: delivery and frame in the composed world
+
+`C04.reported_once` is about what an actor *emits*; these two are about the rest of the world
+(`Lemmas/LifeDelivery.lean`). `World.stepDone` (the fuel of `World.effects` sufficed) is evaluated by
+the driver on every replayed step and reported as `model-fuel-exhausted` if ever false, so no effect is
+dropped silently. -/
+
+/-- **Delivery**: in every step of the composed world whose effects were processed completely, the
+supervision events arriving at other actors' ports are exactly the events the target emitted in that
+step (to targets that have a cell): the same events, in emission order, each exactly once, and
+nobody else receives anything; routing the effects emits no further event. -/
+theorem emitted_is_delivered (w : World) (op : Op) (hd : w.stepDone op = true) :
+    arrivalsOf (w.step op).2.2 = deliverable (w.step op).1 (emitsOf (w.step op).2.1) ∧
+    emitsOf (w.step op).2.2 = [] :=
+  step_delivery w op hd
+
+/-- An event handed to a live supervisor (ports open) is in its supervision queue afterwards, behind
+what was already queued; C03 (`pick_supervision`, `priority`) then has it handled before any message. -/
+theorem delivered_is_enqueued (a : Actor) (e : SupEv) (h : a.portsOpen = true) :
+    (opSupArrive a e).1.supQ = a.supQ ++ [e] :=
+  supArrive_enqueues a e h
+
+/-- **Frame** ("unrelated actors keep running"): an actor that is not the target of the op and shows no
+output among the routed effects of the step (it is neither the supervisor that was notified / linked /
+unlinked nor a descendant reached by `terminate()`) is left exactly as it was. -/
+theorem unrelated_untouched (w : World) (op : Op) (i : Nat)
+    (htgt : ∀ a aop, op.target w = some (a, aop) → a ≠ i)
+    (hi : ∀ o ∈ (w.step op).2.2, o.1 ≠ i) (hc : op ≠ .case) : (w.step op).1.get i = w.get i :=
+  step_frame w op i htgt hi hc
+
+/-- Non-vacuity: the fuel of a concrete three-actor step suffices and the failure of actor 2 is delivered
+to its supervisor 0 and to nobody else; actor 1 is untouched. -/
+def dWorld : World := (({} : World).run
+  [.spawn 0 none none false, .resume 0 ⟨[], .ok⟩, .pollSpawn 0, .spawn 1 none none false,
+   .spawn 2 (some 0) none false, .resume 2 ⟨[], .ok⟩, .pollSpawn 2, .poll 2, .resume 2 ⟨[], .panic 9⟩]).1
+
+example : dWorld.stepDone (.poll 2) = true := by decide
+example : arrivalsOf (dWorld.step (.poll 2)).2.2 = [(0, .failed 2 true 9)] := by decide
+example : ((dWorld.step (.poll 2)).1.get 0).supQ = [.failed 2 true 9] := by decide
+example : (dWorld.step (.poll 2)).1.get 1 = dWorld.get 1 := by decide
+
 /-! ### E-SRC obligations -/
 
 theorem src_cleanup_order : Extracted.cleanupOrder = Life.cleanupSteps := by decide
@@ -232,6 +274,9 @@ end C04
 #print axioms C04.instant_kill_before_start
 #print axioms C04.relink_silent
 #print axioms C04.relink_target
+#print axioms C04.emitted_is_delivered
+#print axioms C04.delivered_is_enqueued
+#print axioms C04.unrelated_untouched
 #print axioms C04.src_cleanup_order
 #print axioms C04.src_terminate_condition
 #print axioms C04.src_status
